@@ -19,6 +19,7 @@
 package dag
 
 import (
+	"crypto"
 	"encoding/base64"
 	"fmt"
 	"time"
@@ -107,6 +108,11 @@ func parseContentType(transaction *transaction, headers jws.Headers, _ *jws.Mess
 func parseSignatureParams(transaction *transaction, headers jws.Headers, _ *jws.Message) error {
 	if key, ok := headers.Get(jws.JWKKey); ok {
 		jwkKey := key.(jwk.Key)
+		// the embedded key is the public key of a new DID; a private key must never be accepted (or spread)
+		var signer crypto.Signer
+		if jwkKey.Raw(&signer) == nil {
+			return transactionValidationError("`jwk` header must not contain a private key")
+		}
 		transaction.signingKey = jwkKey
 	}
 	// Get the keyID from the header (not to be confused with the keyID from the embedded key)
